@@ -45,11 +45,22 @@ def main():
             check(combo)
     for _ in range(3000 if tier == "quick" else 30000):
         check(rnd.sample(paths, 4))
+    # segment names whose characters sort around '/': 'f.meta', 'f-x', 'f+', 'f 1' sort between 'f' and 'f/...' as plain
+    # strings, 'f0', 'fg', 'f_' after it, and a name may be a string prefix of another without being a path prefix
+    odd = ["f", "f.meta", "f-x", "f+", "f 1", "f0", "fg", "f_", "F", "é"]
+    opaths = ["/" + a for a in odd] + ["/%s/%s" % (a, b) for a in odd for b in ("x", "f", "f.meta")] + ["/f/x/y", "/f.meta/x/y", "/g/f/x", "/g/f.meta", "/g/f"]
+    for a, b in itertools.permutations(opaths, 2):
+        check((a, b))
+    for _ in range(6000 if tier == "quick" else 60000):
+        check(rnd.sample(opaths, rnd.choice((3, 3, 4, 5))))
+    for base in (["/model", "/model.meta", "/model/weights"], ["/a/model", "/a/model-v2", "/a/model/w", "/b"], ["/m", "/m+", "/m/x", "/m 1"]):
+        for perm in itertools.permutations(base):
+            check(perm)
     # the classic cases in every order
     for base in (["/f", "/h", "/f/g"], ["/f/g", "/h", "/f"], ["/f/g/h", "/g", "/h", "/f/g"]):
         for perm in itertools.permutations(base):
             check(perm)
-    print(json.dumps({"scope": "all ordered lists of <= 2 of 39 paths, sampled lists of 3 and 4, classic cases in every order (seed %d)" % seed, "evaluations": evals, "distinct_nontrivial": nontriv,
+    print(json.dumps({"scope": "all ordered lists of <= 2 of 39 paths over {f,g,h}, sampled lists of 3 and 4, all ordered pairs and sampled lists of 3..5 of 45 paths whose segment names contain characters sorting around '/', classic cases in every order (seed %d)" % seed, "evaluations": evals, "distinct_nontrivial": nontriv,
                       "rule": "one case per ordered list of kept paths; non-trivial = the list contains a prefix overlap", "samples": [["/f", "/h", "/f/g"]], "violations": violations, "known_hits": []}))
 
 
